@@ -709,7 +709,22 @@ func (in *Interp) binary(op string, l, r Value) Value {
 			in.fail("'in' needs an array")
 		}
 		if l.K == KArr || l.K == KHash {
-			in.dc("membership of a container in an array")
+			// containers are compared through their printed form: where that form differs
+			// from every element's the answer is no under any reading, where it equals the
+			// form of an element that is the same value the answer is yes; only an element
+			// that prints alike without being the same value is left open
+			if l.DeepHasKeyTies() {
+				in.dc("printing a hash with keys that print alike")
+			}
+			for _, e := range r.A {
+				if e.K == l.K && e.Print() == l.Print() {
+					if e.DeepHasKeyTies() || !sameStructure(e, l) {
+						in.dc("membership of a container that prints like an element without being it")
+					}
+					return Bool(true)
+				}
+			}
+			return Bool(false)
 		}
 		for _, e := range r.A {
 			if e.K == l.K && e.Print() == l.Print() {
@@ -810,4 +825,36 @@ func (in *Interp) call(x gast.Call) Value {
 		in.block(fn.Body)
 	}()
 	return ret
+}
+
+// sameStructure compares two values element by element (kinds, scalars, order of array
+// elements, entries of hashes by key).
+func sameStructure(a, b Value) bool {
+	if a.K != b.K {
+		return false
+	}
+	switch a.K {
+	case KArr:
+		if len(a.A) != len(b.A) {
+			return false
+		}
+		for i := range a.A {
+			if !sameStructure(a.A[i], b.A[i]) {
+				return false
+			}
+		}
+		return true
+	case KHash:
+		if len(a.H) != len(b.H) {
+			return false
+		}
+		for _, e := range a.H {
+			v, ok := b.HashGet(e.Key)
+			if !ok || !sameStructure(e.Val, v) {
+				return false
+			}
+		}
+		return true
+	}
+	return a.Print() == b.Print()
 }
